@@ -318,6 +318,9 @@ fn areas_for(w: i32, h: i32) -> Vec<(i32, i32, u32, u32)> {
         (0, 1, u(w), 1),
         (1, 0, 1, u(h)),
         (2, 1, 3, 2),
+        (0, 0, 1, 1),
+        (w - 1, 0, 1, u(h)),
+        (0, h - 1, u(w), 1),
         // overlapping
         (-1, -1, 3, 3),
         (w - 2, h - 2, 4, 4),
@@ -351,6 +354,11 @@ fn nested_for(w: i32, h: i32) -> Vec<((i32, i32, u32, u32), (i32, i32, u32, u32)
         ((w, 0, 2, 2), (0, 0, 1, 1)),
         ((1, 1, 0, 2), (0, 0, 1, 1)),
         ((2, 0, u(w - 3), u(h)), (1, 1, u(w - 4), u(h - 1))),
+        ((0, 0, u(w), u(h)), (0, 0, u(w), u(h))),
+        ((1, 0, u(w - 1), u(h)), (0, 0, u(w - 1), u(h))),
+        ((0, 1, u(w), u(h - 1)), (1, 0, u(w - 1), u(h - 1))),
+        ((0, 0, u(w - 1), u(h - 1)), (w - 2, h - 2, 1, 1)),
+        ((1, 1, u(w - 1), u(h - 1)), (0, 0, 1, u(h - 1))),
     ]
 }
 
@@ -396,8 +404,8 @@ impl Module for M {
     fn rule(&self) -> &'static str {
         "ops: 7 raw widths (1,2,4,8,16,24,32 bit) x 2 data orders x every image size 0..=9 x 0..=4 (quick; 0..=20 x 0..=8 \
          thorough) x byte patterns (zeros, ones, two position dependent formulas, seeded random) x draw offsets incl. \
-         negative x Image::new / with_center x sub-image areas (inside, overlapping, outside, zero sized; 20 per size) and \
-         nested pairs (10 per size) x 2 target boxes (one clipping) on R1 (draw_iter only) and R2 (native fill draining the \
+         negative x Image::new / with_center x sub-image areas (inside, overlapping, outside, zero sized; 23 per size) and \
+         nested pairs (15 per size) x 2 target boxes (one clipping) on R1 (draw_iter only) and R2 (native fill draining the \
          colour iterator); ImageRaw::new with lengths expected-1, expected, expected+1, 0; pixel() over the box + 1 px margin; \
          then seeded random images / areas / offsets. A draw or move op is non-trivial when the shown region is non-empty; \
          a pixel op when the image is non-empty; a new op when the expected length is non-zero. distinct = distinct op text."
